@@ -27,6 +27,11 @@ P_FIXED = {
     'counter': '#define NEXT __COUNTER__\ndiag_log str [__COUNTER__, NEXT, NEXT];\ndiag_log str [__COUNTER__];',
     'types': 'diag_log str [[1, "a", true, [], {}, configFile, missionNamespace, objNull, grpNull, west, scriptNull] apply { typeName _x }];\ndiag_log str [1 isEqualType 2, "a" isEqualType 1, [] isEqualTypeAll 1, [1,"a"] isEqualTypeArray [2,"b"]];',
 }
+# values handed out by operators for "nothing there" / default cases: each call must hand out a value of its own
+RETURNED = ['getArray (configFile >> "CfgIso" >> "a")', 'getArray (configFile >> "CfgIso" >> "b")', 'getArray (configFile >> "CfgIso" >> "c")', 'getArray (configFile >> "nope")',
+            'getArray configNull', 'configHierarchy (configFile >> "CfgIso")', 'allVariables uiNamespace', '"" splitString ","', 'keys createHashMap',
+            'toArray ""', '[] + []', '[1,2] - [1,2]', '[] apply {1}', '[] select {true}', 'getArray (configFile >> "CfgIso" >> "Sub" >> "a")']
+P_FIXED['returned'] = ';\n'.join('diag_log str [%d, %s]' % (i, e) for i, e in enumerate(RETURNED)) + ';'
 P_NEEDS_FULL = {'objects', 'types'}
 
 # ---- polluters ----
@@ -48,6 +53,8 @@ Q_POOL = {
 Q_POOL['bare1'] = 'a = "text"; b = true; c = [1,2]; d = 1; e = {};'
 Q_POOL['bare2'] = 'e = {}; d = 1.5; c = []; b = false; a = "";'
 Q_POOL['bare3'] = 'c = [true, "x", 1, {}];'
+# a script that changes in place every array an operator hands to it (a result shared between calls would carry the change to the next caller)
+Q_POOL['mutate-returned'] = ';\n'.join('private _r%d = %s; if (_r%d isEqualType []) then { _r%d pushBack 7; _r%d append ["left over", [1]]; _r%d set [0, "q"] }' % (i, e, i, i, i, i) for i, e in enumerate(RETURNED)) + '; diag_log "mutated";'
 Q_BARE = {'bare1', 'bare2', 'bare3'}
 Q_NEEDS_FULL = {'objects'}
 Q_CFG = 'class Polluted { x = 1; }; class CfgIso { a = 99; b = "polluted"; c[] = {9}; class Sub { a = 77; }; };'
@@ -55,7 +62,7 @@ Q_CFG = 'class Polluted { x = 1; }; class CfgIso { a = 99; b = "polluted"; c[] =
 
 def p_steps(name, src, full):
     steps = [{'op': 'vm', 'vm': 1, 'ops': 'full' if full else 'basic', 'max_runtime_ms': 0}]
-    if name == 'config':
+    if name in ('config', 'returned'):
         steps.append({'op': 'cfg', 'vm': 1, 'src': CFG_P})
     if name == 'objects':
         steps.append({'op': 'cfg', 'vm': 1, 'src': 'class CfgVehicles { class Dummy { scope = 2; }; };'})
@@ -71,6 +78,8 @@ def q_steps(name, full, vm=2):
     else:
         if name == 'objects':
             steps.append({'op': 'cfg', 'vm': vm, 'src': 'class CfgVehicles { class Dummy { scope = 2; }; };'})
+        if name == 'mutate-returned':
+            steps.append({'op': 'cfg', 'vm': vm, 'src': CFG_P})
         steps.append({'op': 'run', 'vm': vm, 'src': Q_POOL[name], 'path': '/vh/q.sqf'})
     return steps
 
